@@ -2,7 +2,7 @@
    Each is closed by [exact <lemma>] (or a two-line combination of lemmas) and followed by Print Assumptions.
    PD's behaviour is an explicit hypothesis:  pd : nat -> Z  is the sequence of timestamps PD hands out,
    pd_strict says it is strictly increasing. *)
-From Verif Require Import Oracle.Model Oracle.ModelSys Oracle.ModelVal Oracle.ProofsArith Oracle.ProofsSys Oracle.ProofsVal.
+From Verif Require Import Oracle.Model Oracle.ModelSys Oracle.ModelVal Oracle.ModelInt Oracle.ProofsArith Oracle.ProofsSys Oracle.ProofsVal Oracle.ProofsInt Oracle.ProofsSeq.
 From Coq Require Import Lia.
 Open Scope Z_scope.
 
@@ -140,6 +140,101 @@ Theorem C13_validate_cancel_isolated : forall (pd : nat -> Z) (u : nat) retry n 
 Proof. intros pd u retry n es H. exact (cancel_isolated pd u retry n es H). Qed.
 Print Assumptions C13_validate_cancel_isolated.
 
+(* --- the call-level model refines the CAS-level system: running the calls one after the other (each thread gets
+       nine scheduler slots) publishes exactly what Model.set_last (publish the maximum) computes, every call returns
+       PD's answer, untouched threads stay idle --- *)
+Theorem C13_setlast_refines : forall (pd : nat -> Z) n m, (m <= n)%nat ->
+  let s := run pd (init_sys n) (seq_sched m) in
+  lowres s = get_last (seq_state pd m) 1 /\ issued s = m /\
+  (forall j, (m <= j < n)%nat -> nth_error (thr s) j = Some idle_thread) /\
+  (forall j, (j < m)%nat -> exists th, nth_error (thr s) j = Some th /\ tpc th = PDone (Some (pd j))).
+Proof. exact seq_refines. Qed.
+Print Assumptions C13_setlast_refines.
+
+(* --- GetLowResolutionTimestamp over interval changes: the oracle as a whole = the GetTimestamp/setLastTS system next
+       to the interval record; SetLowResolutionTimestampUpdateInterval, the adaptive transitions and the staleness
+       adjustment may be interleaved anywhere: the cached value still never decreases and never exceeds the largest
+       timestamp PD issued, and the interval record keeps its invariant --- *)
+Theorem C13_lowres_bounds_intervals : forall (pd : nat -> Z),
+  (forall i j, (i < j)%nat -> pd i < pd j) ->
+  forall n i0 es1 es2 v1 v2, int_inv i0 ->
+    let s1 := prun pd (init_sys n, i0) es1 in
+    let s2 := prun pd s1 es2 in
+    int_inv (snd s2) /\
+    (lowres (fst s1) = Some v1 -> lowres (fst s2) = Some v2 -> v1 <= v2 /\ v2 <= pd (issued (fst s2) - 1)%nat).
+Proof.
+  intros pd strict n i0 es1 es2 v1 v2 I s1 s2.
+  destruct (prun_proj pd es1 (init_sys n, i0)) as [A1 B1]. destruct (prun_proj pd es2 s1) as [A2 B2].
+  fold s1 in A1, B1. fold s2 in A2, B2. cbn [fst snd] in A1, B1. split.
+  - rewrite B2, B1. apply irun_inv, irun_inv, I.
+  - rewrite A2, A1. apply (C13_lowres_bounds pd strict n (sys_events es1) (sys_events es2) v1 v2).
+Qed.
+Print Assumptions C13_lowres_bounds_intervals.
+
+(* --- the adaptive update interval: for every sequence of ticks, shrink requests, configuration changes and staleness
+       adjustments the actual interval stays within [min(500ms, configured), configured]; a required staleness below
+       the current interval shrinks it in one step --- *)
+Theorem C13_interval_bounds : forall ops s, int_inv s -> int_inv (fold_left istep ops s).
+Proof. exact irun_inv. Qed.
+Print Assumptions C13_interval_bounds.
+
+Theorem C13_interval_shrinks : forall s now req,
+  int_inv s -> min_interval < cfg s -> req <> 0 -> req < ada s -> min_interval < ada s ->
+  let s' := fst (next_interval s now req) in
+  ada s' = Z.max (req - shrink_preserve) min_interval /\ ada s' < ada s /\ min_interval <= ada s' /\ istt s' = ISAdapting /\
+  snd (next_interval s now req) = ada s'.
+Proof. exact next_interval_shrinks. Qed.
+Print Assumptions C13_interval_shrinks.
+
+(* --- GetStaleTimestamp (domain: prev < 2^33 s, physical < 2^43 ms, arrival <= now): error exactly when the cached
+       physical second is not beyond prevSecond; monotone in the clock; not beyond the cached timestamp when the
+       record is at most prevSecond old (and possibly beyond otherwise: _refuted); never in PD's future --- *)
+Theorem C13_stale_ts : forall tso arr now prev,
+  (stale_ts tso arr now prev = None <-> extract_physical tso / 1000 <= prev) /\
+  (forall r, stale_dom tso arr now prev -> stale_ts tso arr now prev = Some r ->
+     extract_logical r = 0 /\
+     (now - arr <= prev * 1000000000 -> r <= tso) /\
+     (forall now' r', stale_dom tso arr now' prev -> now <= now' -> stale_ts tso arr now' prev = Some r' -> r <= r')).
+Proof.
+  intros tso arr now prev. split; [apply stale_guard|]. intros r D H. repeat split.
+  - exact (proj2 (proj2 (proj2 (stale_value _ _ _ _ _ D H)))).
+  - intros Hage. exact (stale_le_last _ _ _ _ _ D Hage H).
+  - intros now' r' D' Hle H'. exact (stale_monotone _ _ _ _ _ _ _ D D' Hle H H').
+Qed.
+Print Assumptions C13_stale_ts.
+
+Theorem C13_stale_beyond_last_refuted : exists tso arr now prev r,
+  stale_dom tso arr now prev /\ stale_ts tso arr now prev = Some r /\ tso < r.
+Proof. exact stale_beyond_last_refuted. Qed.
+Print Assumptions C13_stale_beyond_last_refuted.
+
+(* the future-staleness guard (TestNonFutureStaleTSO): pd_ns t = PD's clock (ns) at local time t, non-decreasing and
+   not slower than the local clock; every setLastTS call (one at a time, clock readings not going backwards) carries
+   a timestamp PD had issued by then.  Then the published record's arrival never goes back, its timestamp had been
+   issued when it arrived, and the estimate computed from it at any later time never exceeds PD's current physical
+   time minus prevSecond. *)
+Theorem C13_stale_not_future : forall (pd_ns : Z -> Z),
+  (forall a b, a <= b -> pd_ns a <= pd_ns b) ->
+  forall calls t0, Forall (call_ok pd_ns) calls -> clock_sorted t0 calls ->
+  forall l a, fold_left (fun r c => set_last_arr r (fst c) (snd c)) calls None = Some (l, a) ->
+  a <= last_clock t0 calls /\
+  forall now prev r, stale_dom l a now prev -> pd_ns a + (now - a) <= pd_ns now ->
+    stale_ts l a now prev = Some r ->
+    extract_physical r <= pd_ns now / 1000000 - prev * 1000 /\ extract_logical r = 0.
+Proof.
+  intros pd_ns mono calls t0 F S l a H.
+  destruct (arrival_run pd_ns mono calls None t0 Logic.I F S) as [R _]. cbv zeta in R. rewrite H in R. destruct R as [R1 R2].
+  split; [exact R2|]. intros now prev r D Hrate Hs. exact (stale_not_future pd_ns l a now prev r D R1 Hrate Hs).
+Qed.
+Print Assumptions C13_stale_not_future.
+
+(* the arrival of the published record never goes back (call level) *)
+Theorem C13_arrival_monotone : forall (pd_ns : Z -> Z), (forall a b, a <= b -> pd_ns a <= pd_ns b) -> forall calls t0 r,
+  rec_ok pd_ns r t0 -> Forall (call_ok pd_ns) calls -> clock_sorted t0 calls ->
+  rec_le r (fold_left (fun r c => set_last_arr r (fst c) (snd c)) calls r).
+Proof. intros pd_ns mono calls t0 r R F S. exact (proj2 (arrival_run pd_ns mono calls r t0 R F S)). Qed.
+Print Assumptions C13_arrival_monotone.
+
 (* --- local.go: the local oracle is strictly increasing while its clock does not go backwards and fewer than
        2^18 calls fall into one millisecond (state = (lastTimeStampTS, n), previous result = their sum) --- *)
 Theorem C13_local_monotone : forall m n now,
@@ -172,6 +267,11 @@ Example ex_cancel_isolated :
       ECancel 0; EFlightFinish; EStep 1] in
   voutcome_of s 0 = Some OErr /\ voutcome_of s 1 = Some OAccept.
 Proof. vm_compute. split; reflexivity. Qed.
+Example ex_interval : let s0 := mkI 2000000000 2000000000 0 0 ISNormal in
+  ada (fst (next_interval s0 1000000000 800000000)) = 700000000 /\ istt (fst (next_interval s0 1000000000 800000000)) = ISAdapting.
+Proof. vm_compute. split; reflexivity. Qed.
+Example ex_stale : stale_ts (compose_ts 1700000000000 7) 5000000000 5250000000 10 = Some (compose_ts 1699999990250 0).
+Proof. vm_compute. reflexivity. Qed.
 Example ex_retry_accepts :
   voutcome_of (vrun Z.of_nat true (init_vsys 2) (no_retry_sched ++ [EStep 1; EStep 1; EFlightIssue; EFlightFinish; EStep 1])) 1 = Some OAccept.
 Proof. exact retry_same_schedule. Qed.
